@@ -190,6 +190,25 @@ func oracleMsg(c Case) error {
 	if !bytes.Equal(got, padded) {
 		return errors.New("Decrypt does not recover what a conformant server sealed")
 	}
+	// the wrapper refuses what the cipher refuses: a ciphertext whose length is zero or not a whole number of blocks
+	// (a truncated frame from the network), whatever memory lies behind the slice
+	for _, cut := range []int{len(sealedRef), 1, 15, 16 - len(sealedRef)%16 + 3} {
+		n := len(sealedRef) - cut
+		if n < 0 || (n > 0 && n%16 == 0) {
+			continue
+		}
+		bad, gBad := guarded(sealedRef[:n])
+		out, err := ige.Decrypt(bad, key, mk)
+		if err == nil {
+			return fmt.Errorf("Decrypt accepted a ciphertext of %d bytes (not a positive multiple of 16) and returned %d bytes", n, len(out))
+		}
+		if !gBad.intact() {
+			return errors.New("Decrypt modified its input on the refusal path")
+		}
+	}
+	if out, err := ige.Encrypt([]byte{}, key); err == nil && len(out) == 0 {
+		return errors.New("Encrypt of an empty message succeeded with an empty ciphertext (nothing a peer could open)")
+	}
 	kept.Keep("the output of Encrypt", func() []byte { return ct })
 	kept.Keep("the output of Decrypt", func() []byte { return got })
 	return nil
